@@ -63,10 +63,17 @@ theorem clock_monotone (s : Shard) (op : Op) :
   cases op with
   | write k v e => simp [step, recordWrite]
   | delete k =>
-    simp only [step, recordDelete]
-    split
-    · simp
-    · split <;> simp
+    simp only [step]
+    cases hg : NMap.get s.keys k with
+    | none => rw [recordDelete_none hg]; simp
+    | some rv =>
+      by_cases hc0 : rv.crdt.kind = 0
+      · obtain ⟨r, hr⟩ := kind_lww hc0
+        rw [recordDelete_lww hg hr]; simp
+      · by_cases hc5 : rv.crdt.kind = 5
+        · obtain ⟨m, hm⟩ := kind_hash hc5
+          rw [recordDelete_hash hg hm]; simp
+        · rw [recordDelete_other hg hc0 hc5]; simp
   | hwrite k fs =>
     have := hwrite_clock s k fs
     simp only [step]
@@ -117,19 +124,26 @@ theorem inv_write (s : Shard) (k : Nat) (v : Bytes) (e : Option Nat) (h : s.Inv)
     subst ht; exact Nat.le_refl _
 
 theorem inv_delete (s : Shard) (k : Nat) (h : s.Inv) : (recordDelete s k).1.Inv := by
-  unfold recordDelete
-  split
-  · exact h
-  · split
-    · have hi := inv_insert (k := k) (c := s.clock.tick) (vc := s.vclock) h (by simp)
-        (rv := { (‹RV› : RV) with crdt := .lww (Lww.delete s.clock.tick), ts := s.clock.tick })
-        (Nat.le_refl _)
-        (by
-          intro t ht
-          simp [RV.innerStamps, Crdt.innerStamps, Lww.delete] at ht
-          subst ht; exact Nat.le_refl _)
-      exact hi
-    · exact h
+  cases hg : NMap.get s.keys k with
+  | none => rw [recordDelete_none hg]; exact h
+  | some rv =>
+    by_cases hc0 : rv.crdt.kind = 0
+    · obtain ⟨r, hr⟩ := kind_lww hc0
+      rw [recordDelete_lww hg hr]
+      apply inv_insert (vc := s.vclock) h (Nat.le_succ _) (Nat.le_refl _)
+      intro t ht
+      simp [RV.innerStamps, Crdt.innerStamps, Lww.delete] at ht
+      subst ht; exact Nat.le_refl _
+    · by_cases hc5 : rv.crdt.kind = 5
+      · obtain ⟨m, hm⟩ := kind_hash hc5
+        rw [recordDelete_hash hg hm]
+        apply inv_insert (vc := s.vclock) h (Nat.le_succ _) (Nat.le_refl _)
+        intro t ht
+        simp only [RV.innerStamps, delHashValue, Crdt.innerStamps] at ht
+        obtain ⟨q, hq, rfl⟩ := List.mem_map.mp ht
+        obtain ⟨p, _, rfl⟩ := NMap.mem_mapVal hq
+        simp [Lww.delete, delHashValue]
+      · rw [recordDelete_other hg hc0 hc5]; exact h
 
 theorem hashOf_dom {rv0 : RV} (h : rv0.Dominated) :
     ∀ p ∈ rv0.crdt.hashOf, p.2.ts.time ≤ rv0.ts.time := by
@@ -304,16 +318,22 @@ theorem issued_stamp_is_new_clock (s : Shard) (op : Op) (he : effective s op = t
       omega
   | delete k =>
     simp only [effective] at he
-    simp only [step, recordDelete]
-    split at he
-    · rename_i rv hg
-      split at he
-      · rename_i r hc
-        rw [hg]
-        simp only [hc]
+    simp only [step]
+    cases hg : NMap.get s.keys k with
+    | none => simp [hg] at he
+    | some rv =>
+      rw [hg] at he
+      simp only at he
+      by_cases hc0 : rv.crdt.kind = 0
+      · obtain ⟨r, hr⟩ := kind_lww hc0
+        rw [recordDelete_lww hg hr]
         exact ⟨_, rfl, rfl, by simp⟩
-      · cases he
-    · cases he
+      · by_cases hc5 : rv.crdt.kind = 5
+        · obtain ⟨m, hm⟩ := kind_hash hc5
+          rw [recordDelete_hash hg hm]
+          exact ⟨_, rfl, rfl, by simp [delHashValue]⟩
+        · exfalso
+          cases hc : rv.crdt <;> rw [hc] at he hc0 hc5 <;> simp [Crdt.kind] at he hc0 hc5
   | hdelete k fs =>
     simp only [effective] at he
     simp only [step, recordHashDelete]
